@@ -1132,6 +1132,11 @@ func (cl *linCluster) history(c *Ctx, hn int, seed int64, k, clients int, faults
 			if after != nil {
 				why = fmt.Sprintf("; operation %d (%v => %s, index %d) had been acknowledged by replica %d at %dns", after.id, after.spec, after.reply, appliedAt[after.id], after.target, after.res)
 			}
+			if r.spec.Cmd == "get" {
+				// C04 speaks about writes; a stale plain read is counted, set aside (record S) and not reported as a violation
+				c.Note(fmt.Sprintf("observation:stale-local-read:leader=%v", r.targetLead))
+				continue
+			}
 			pviol("stale-local-answer", fmt.Sprintf("h%d seed=%d operation %d (%v => %s) invoked at %dns on replica %d (leader=%v, its applied index %d) is explained by no state at or after position %d of the applied order%s",
 				hn, seed, r.id, r.spec, r.reply, r.inv, r.target, r.targetLead, r.targetApplied, lo, why))
 			continue
